@@ -24,12 +24,12 @@ PROP = dict(
         "thread_rng: ghost tape; HashMap::insert on the snapshot publication map: no-op; clock: ghost instants",
     ],
     harnesses=[
-        H(NH, "c14", "c14_poll_timer_v4", "NTPv4 NTS source, all cookie lengths 0..=1024 and stash fills: Send+SetTimer or Reset, never a panic; requested count = min(missing, fit); the request asked for fits 1024 bytes", timeout=300),
-        H(NH, "c14", "c14_poll_timer_v5", "same for upgrading / upgraded (incl. fallback to v4) / NTPv5 NTS sources", timeout=300),
-        H(NH, "c14", "c14_ef_nofit", "real per-field encoder (cookie and placeholder field, both framings), L <= 64, every remaining buffer size <= 80: written iff it fits and then exactly max(16, 4 + L rounded up to 4) bytes; otherwise an error, never a panic", timeout=300),
-        H(NH, "c14", "c14_budget", "margin rule vs. field sizes: fixed part + min(missing, floor(724/max(L,1))) cookie-sized fields <= 1024 for all L, fills, versions", timeout=120),
-        H(NH, "c14", "c14_write_zeros_model", "loop-free write_zeros model = real loop (bytes, position, success) for n <= 40, room <= 48 (the model is only reached with padding-sized n)", timeout=300),
-        H(NH, "c14", "c14_poll_plain_v4", "source without NTS, NTPv4, real builder + encoder: Send(<= 1024)+SetTimer, Reset or Demobilize; never a panic", timeout=300),
-        H(NH, "c14", "c14_poll_plain_upgrading", "same, NTPv4 with upgrade request", timeout=300),
+        H(NH, "c14", "c14_poll_timer_v4", "NTPv4 NTS source, all cookie lengths 0..=1024 and stash fills: Send+SetTimer or Reset, never a panic; requested count = min(missing, fit); the request asked for fits 1024 bytes", timeout=600),
+        H(NH, "c14", "c14_poll_timer_v5", "same for upgrading / upgraded (incl. fallback to v4) / NTPv5 NTS sources", timeout=600),
+        H(NH, "c14", "c14_ef_nofit", "real per-field encoder (cookie and placeholder field, both framings), L <= 64, every remaining buffer size <= 80: written iff it fits and then exactly max(16, 4 + L rounded up to 4) bytes; otherwise an error, never a panic", timeout=600),
+        H(NH, "c14", "c14_budget", "margin rule vs. field sizes: fixed part + min(missing, floor(724/max(L,1))) cookie-sized fields <= 1024 for all L, fills, versions", timeout=600),
+        H(NH, "c14", "c14_write_zeros_model", "loop-free write_zeros model = real loop (bytes, position, success) for n <= 40, room <= 48 (the model is only reached with padding-sized n)", timeout=600),
+        H(NH, "c14", "c14_poll_plain_v4", "source without NTS, NTPv4, real builder + encoder: Send(<= 1024)+SetTimer, Reset or Demobilize; never a panic", timeout=600),
+        H(NH, "c14", "c14_poll_plain_upgrading", "same, NTPv4 with upgrade request", timeout=600),
     ],
 )
